@@ -1,6 +1,6 @@
 (* C11 -- structural invariants of the Thread messaging LTS (Conc/ThreadQ.v): who can be where (roles), the life-cycle
    flags, and the FIFO history invariant.  Everything here holds for every label contract [ok]. *)
-From Coq Require Import List Arith Bool Lia.
+From Coq Require Import List Arith Bool Lia NArith.
 From Muscle Require Import Conc.ThreadQ.
 Import ListNotations.
 
@@ -25,14 +25,14 @@ Ltac fin_frame :=
   repeat match goal with c : chanid |- _ => destruct c end; simpl; auto; try congruence; try lia.
 
 (* the fields a signal can change *)
-Lemma signal_frame : forall c g g' e, signal c g = (g', e) ->
+Lemma signal_frame : forall nl c g g' e, signal nl c g = (g', e) ->
   g_sockets g' = g_sockets g /\ g_evd g' = g_evd g /\ g_alloc g' = g_alloc g /\ g_running g' = g_running g /\
   g_iopen g' = g_iopen g /\ g_ist g' = g_ist g /\ g_il g' = g_il g /\ g_gen g' = g_gen g /\
   (forall c', c_q (ch g' c') = c_q (ch g c') /\ c_sent (ch g' c') = c_sent (ch g c') /\ c_rcvd (ch g' c') = c_rcvd (ch g c')) /\
   (forall c', c' <> c -> ch g' c' = ch g c') /\
-  c_sig (ch g c) <= c_sig (ch g' c) /\ c_wc (ch g c) <= c_wc (ch g' c).
+  c_sig (ch g c) <= c_sig (ch g' c) /\ True.
 Proof.
-  intros c g g' e H. unfold signal in H.
+  intros nl c g g' e H. unfold signal in H.
   destruct (g_sockets g) eqn:Hs;
     [destruct c; [destruct (g_alloc g) eqn:Ha; [destruct (g_iopen g) eqn:Ho|] | destruct (g_alloc g && g_iopen g) eqn:Ha] | destruct c];
     inversion H; subst; clear H; fin_frame.
@@ -109,13 +109,14 @@ Record wf (m e : bool) (s : sys) : Prop := mkWf {
 Section Wf.
 Variable early : bool.
 Variable absorb_n : nat.
+Variable no_limit : N.
 Variable react : nat -> list msg * bool.
 Variable ok : label -> bool.
 Variables smode emode : bool.
 
-Notation step := (step early absorb_n react).
-Notation sys_step := (sys_step early absorb_n react).
-Notation reachable_if := (reachable_if early absorb_n react).
+Notation step := (step early absorb_n no_limit react).
+Notation sys_step := (sys_step early absorb_n no_limit react).
+Notation reachable_if := (reachable_if early absorb_n no_limit react).
 
 Lemma upd_same : forall f t v, upd f t v t = v.
 Proof. intros. unfold upd. rewrite Nat.eqb_refl. reflexivity. Qed.
@@ -164,7 +165,7 @@ Inductive Step : choice -> gst -> local -> gst -> local -> list ev -> Prop :=
     Step CRun g (mkL (PSendCS x m) k) (set_ch x (enq (ch g x) m) g)
          (mkL (PSendSig x (Nat.eqb (length (c_q (ch g x) ++ [m])) 1)) k) [EDump]
 | S_SendSig_first : forall g k x g' e p k' e',
-    signal x g = (g', e) -> ret react (g_evd g') ROk k = (p, k', e') ->
+    signal no_limit x g = (g', e) -> ret react (g_evd g') ROk k = (p, k', e') ->
     Step CRun g (mkL (PSendSig x true) k) g' (mkL p k') (e ++ e')
 | S_SendSig_not : forall g k x p k' e',
     ret react (g_evd g) ROk k = (p, k', e') ->
@@ -195,7 +196,7 @@ Inductive Step : choice -> gst -> local -> gst -> local -> list ev -> Prop :=
     Step CRun g (mkL (PRecvPark x w) k) g (mkL (PRecvAbsorb x WPoll) k) [EWoken]
 | S_Park_wake_wc : forall g k x w,
     readable g x = true -> g_sockets g = false ->
-    Step CRun g (mkL (PRecvPark x w) k) (set_ch x (with_wc (ch g x) 0) g) (mkL (PRecvAbsorb x w) k) [EWoken]
+    Step CRun g (mkL (PRecvPark x w) k) (set_ch x (with_wc (ch g x) 0%N) g) (mkL (PRecvAbsorb x w) k) [EWoken]
 | S_Park_timeout : forall g k x p k' e',
     ret react (g_evd g) RTimedOut k = (p, k', e') ->
     Step CTimeout g (mkL (PRecvPark x WTimed) k) g (mkL p k') ([ETimeout] ++ e')
@@ -212,7 +213,7 @@ Inductive Step : choice -> gst -> local -> gst -> local -> list ev -> Prop :=
 | S_StartCheck : forall g k,
     Step CRun g (mkL PStartCheck k) g (mkL (PStartSig (negb (is_nil (c_q (g_ci g))))) k) [EDump]
 | S_StartSig_yes : forall g k g' e p k' e',
-    signal CI g = (g', e) -> ret react (g_evd g') ROk k = (p, k', e') ->
+    signal no_limit CI g = (g', e) -> ret react (g_evd g') ROk k = (p, k', e') ->
     Step CRun g (mkL (PStartSig true) k) g' (mkL p k') (e ++ e')
 | S_StartSig_no : forall g k p k' e',
     ret react (g_evd g) ROk k = (p, k', e') ->
@@ -239,7 +240,7 @@ Inductive Step : choice -> gst -> local -> gst -> local -> list ev -> Prop :=
 | S_IStartupCS_empty : forall g k,
     c_q (g_co g) = [] -> Step CRun g (mkL PIStartupCS k) g (mkL PIAfterStartup k) [EDump]
 | S_IStartupCS_signal : forall g k g' e,
-    c_q (g_co g) <> [] -> signal CO g = (g', e) ->
+    c_q (g_co g) <> [] -> signal no_limit CO g = (g', e) ->
     Step CRun g (mkL PIStartupCS k) g' (mkL PIAfterStartup k) (e ++ [EDump])
 | S_IAfterStartup : forall g k, Step CRun g (mkL PIAfterStartup k) g (mkL PILoop k) []
 | S_ILoop_default : forall g k,
@@ -316,7 +317,7 @@ Proof. intros A [|x l] H; [reflexivity | discriminate]. Qed.
 Lemma Step_const : forall c g l g' l' ev, Step c g l g' l' ev -> g_sockets g' = g_sockets g /\ g_evd g' = g_evd g.
 Proof.
   intros c g l g' l' ev HS. inversion HS; subst; clear HS; auto;
-    try (match goal with Hs : signal _ _ = _ |- _ => apply signal_frame in Hs; tauto end);
+    try (match goal with Hs : signal _ _ _ = _ |- _ => apply signal_frame in Hs; tauto end);
     try (destruct x; simpl; auto; fail).
   - pose proof (absorb_frame absorb_n x g). simpl in *. tauto.
   - unfold spawned; simpl. pose proof (alloc_frame g). simpl in *. tauto.
@@ -334,9 +335,9 @@ Definition wfg (g : gst) : Prop :=
 Lemma wfg_set_ch : forall c x g, wfg (set_ch c x g) <-> wfg g.
 Proof. intros [] x g; unfold wfg; simpl; tauto. Qed.
 
-Lemma wfg_signal : forall c g g' e, signal c g = (g', e) -> wfg g -> wfg g'.
+Lemma wfg_signal : forall nl c g g' e, signal nl c g = (g', e) -> wfg g -> wfg g'.
 Proof.
-  intros c g g' e H W. apply signal_frame in H.
+  intros nl c g g' e H W. apply signal_frame in H.
   destruct H as (H1 & _ & H3 & H4 & H5 & H6 & _). unfold wfg in *. rewrite H1, H3, H4, H5, H6. exact W.
 Qed.
 
@@ -420,7 +421,7 @@ Lemma Step_running : forall c g l g' l' ev, Step c g l g' l' ev ->
 Proof.
   intros c g l g' l' ev HS. inversion HS; subst; clear HS; simpl; eauto;
     try (right; right; right;
-         try match goal with Hs : signal _ _ = _ |- _ => apply signal_frame in Hs end;
+         try match goal with Hs : signal _ _ _ = _ |- _ => apply signal_frame in Hs end;
          try match goal with x : chanid |- _ => destruct x end; simpl; tauto).
   - right; right; right. pose proof (absorb_frame absorb_n x g). simpl in *. tauto.
   - right; right; right. pose proof (alloc_frame g). simpl in *. tauto.
@@ -537,7 +538,7 @@ Proof.
   intros c g l g' l' ev HS. inversion HS; subst; clear HS;
     try (apply hist_same; intros c'; auto; fail);
     try (apply hist_same; intros c';
-         match goal with Hs : signal _ _ = _ |- _ => apply signal_frame in Hs; destruct Hs as (_&_&_&_&_&_&_&_&Hs&_); apply Hs end).
+         match goal with Hs : signal _ _ _ = _ |- _ => apply signal_frame in Hs; destruct Hs as (_&_&_&_&_&_&_&_&Hs&_); apply Hs end).
   - (* enqueue *)
     split.
     + intros F c'. destruct (chan_eqb_spec x c') as [->|Hn].
